@@ -4,7 +4,8 @@ For every key of the element table, and for every modifier applied to every
 element, the template is executed on  sentinels + args  where args are exactly
 the k entries the construct is entitled to consume (the table arity; for
 modifiers the documented consumption derived from the operand arities) and
-sentinels are three distinct objects (an eager list, a lazy list, a big int).
+sentinels are three distinct objects (an eager list, a lazy list, a big int),
+0/2/5 padding entries and two entries pushed by the interpreter's own ¾ and ¥.
 Afterwards the stack must be the same list object, still hold the three
 sentinel objects (identity) at positions 0..2, and their values must be
 unchanged.  Exceptions discard the case.  The documented whole-stack
@@ -89,9 +90,17 @@ def check(text, specs, protected_extra=0):
         args = [elemargs.build(s, ctx) for s in specs]
     except Exception as e:  # noqa: BLE001
         return ("discard", f"building arguments: {e!r}")
-    nsent = len(sent)
-    stack = sent + args
+    # two protected entries made by the interpreter itself: what ¾ and ¥ push for a non-empty global array / register
+    stack = sent
     ctx.stacks.append(stack)
+    ctx.global_array = [11, [12]]
+    ctx.register = [21, 22]
+    r0 = harness.exec_py(_code("¾¥"), stack, ctx, budget=50_000, wall=5)
+    if r0.exc is not None or len(stack) != 5 + pad:
+        return ("discard", "retrieval sentinels")
+    sent = list(stack)
+    nsent = len(sent)
+    stack.extend(args)
     r = harness.exec_py(_code(text), stack, ctx, budget=1_500_000, wall=15)
     if r.exc is not None:
         return ("discard", type(r.exc).__name__)
@@ -105,7 +114,7 @@ def check(text, specs, protected_extra=0):
             if stack[i] is not sent[i]:
                 what = f"entry {i} (of {nsent}) below the arguments was replaced by {str(stack[i])[:60]!r}"
                 break
-        if what is None and any(x != [900 + i] for i, x in enumerate(sent[3:])):
+        if what is None and any(x != [900 + i] for i, x in enumerate(sent[3:3 + pad])):
             what = "a padding entry below the arguments changed its value"
     if what is None:
         for i in range(protected_extra):
@@ -121,6 +130,14 @@ def check(text, specs, protected_extra=0):
         want = tuple(norm(v) for v in SENT_VALUES)
         if vals != want:
             what = f"a value below the arguments changed: {harness.jsonable(list(vals))!r}"
+        else:
+            try:
+                derived = [norm(sent[-2]), norm(sent[-1])]
+            except Exception as e:  # noqa: BLE001
+                derived = ("raises", repr(e))
+            if derived != [norm([11, [12]]), norm([21, 22])]:
+                what = ("the entries pushed earlier by ¾ and ¥ (then [11, [12]] and [21, 22]) now denote "
+                        f"{harness.jsonable(derived)!r}")
     if what:
         return (f"C09:{text}:{_types(specs)}", f"{text} on sentinels + {specs!r}: {what}")
     return None
